@@ -7,7 +7,7 @@
    reference tree, which [decode] reads back.  This file holds statement pins,
    [exact] and Print Assumptions only. *)
 From Coq Require Import List.
-From LV Require Import Cst Tree ABuild Runtime Exec Refine ExecInv ParseEntry.
+From LV Require Import Cst Tree ABuild Runtime Exec Refine ExecInv ParseEntry CreateTruthful.
 Import ListNotations.
 
 Theorem C02_step_refines : forall c sn g o g',
@@ -50,9 +50,18 @@ Proof.
   exists t. split; assumption.
 Qed.
 
+(* second clause: the reference passed to create_node is the node that was just closed, and the cell it
+   names carries the kind it was closed with (SClose, SCreate and the error paths of the command language
+   log [ECreate k ref] with exactly the result of this call) *)
+Theorem C02_create_node_truthful : forall st m k ref st',
+  p_close st m k = Ok (ref, st') ->
+  ref = m /\ exists off, nth_error (nodes (cstd st')) ref = Some (NRule k off).
+Proof. exact p_close_truthful. Qed.
+
 Print Assumptions C02_exec_well_formed.
 Print Assumptions C02_step_refines.
 Print Assumptions C02_history_refines.
 Print Assumptions C02_init.
 Print Assumptions C02_close_root.
 Print Assumptions C02_decode_flatten.
+Print Assumptions C02_create_node_truthful.
